@@ -45,12 +45,51 @@ def independent(o):
     return out
 
 
-def with_comments(o, marks):
-    """text of the program with ` <comment>` appended to the given (1-based) lines"""
+# white space between the code of the name line and the comment: blanks, tab, and the characters at which
+# str.splitlines() (but not the property, which counts "\n" only) would break the line - every shipped lexer classifies
+# them as white space (checked per variant on the lexer's raw stream, see `blank_for_lexer`)
+GAPS = ["  ", "  ", "  ", " ", "\t", " \x0c", "\x0b", "\x1c ", "\x1d", " \x1e", "\x85", "\u2028", " \u2029 ", "\xa0", "\u3000 "]
+
+
+def with_comments(o, marks, gaps=None, inline=None):
+    """text of the program with `<gap><comment>` appended to the given (1-based) lines (gap: two blanks unless `gaps`
+    names another one for the line); `inline`: {line: (index, character)} - one blank of that line replaced"""
     lines = ["".join(seg[0] for seg in ln) for ln in o.lines]
+    for ln, (i, ch) in (inline or {}).items():
+        lines[ln - 1] = lines[ln - 1][:i] + ch + lines[ln - 1][i + 1:]
     for ln, text in marks.items():
-        lines[ln - 1] = lines[ln - 1].rstrip(" \t") + "  " + text
+        lines[ln - 1] = lines[ln - 1].rstrip(" \t") + (gaps or {}).get(ln, "  ") + text
     return "\n".join(lines) + "\n"
+
+
+def inline_separators(o, lang, funcs, rnd, share=0.35):
+    """for a share of the functions: one blank of the name line BEHIND the start of the header replaced by a separator
+    character / exotic blank (between the tokens of the signature or inside a string literal of it). Kept only if the
+    real lexer's raw stream shows the character inside a white-space or string token (independent of Code Limit)."""
+    from pygments.token import String
+    out = {}
+    for f in funcs:
+        if rnd.random() >= share:
+            continue
+        line = "".join(seg[0] for seg in o.lines[f.markable - 1]).rstrip(" \t")
+        spots = [i for i, c in enumerate(line) if c == " " and i >= f.start[1]]
+        if spots:
+            out[f.markable] = (rnd.choice(spots), rnd.choice(scan_streams.SEPARATORS + scan_streams.SEPARATORS + scan_streams.BLANKS))
+    if not out:
+        return out
+    text = with_comments(o, {}, None, out)
+    starts = [0]
+    for ln in text.split("\n")[:-1]:
+        starts.append(starts[-1] + len(ln) + 1)
+    raw, bad = sr.raw_tokens(lang, text)
+    offs = [off for (off, _, _) in raw]
+    from bisect import bisect_right
+    for ln, (i, ch) in list(out.items()):
+        k = bisect_right(offs, starts[ln - 1] + i) - 1
+        (off, tt, val) = raw[k]
+        if bad or not ((sr.kind_of(tt) == 6 and val.isspace()) or tt in String):
+            del out[ln]
+    return out
 
 
 def variants(ctx):
@@ -62,14 +101,21 @@ def variants(ctx):
         if not ind:
             continue
         fam = "Python" if lang == "Python" else "brace"
-        for _ in range(ctx.pick(2, 4)):
+        for rnd_i in range(ctx.pick(2, 4)):
             k = rnd.randint(1, len(ind))
             chosen = rnd.sample(ind, k)
             marks = {f.markable: rnd.choice(MARK[fam]) for f in chosen}
             removed = {(f.name, f.start[0], f.start[1]) for f in chosen}
-            out.append((lang, orig, with_comments(o, marks), removed, "mark"))
+            if rnd_i % 2 == 0:
+                out.append((lang, orig, with_comments(o, marks), removed, "mark"))
+                continue
+            # every second marking with other white space in front of the comment and, for a share of the functions, a
+            # separator character between the tokens (or inside a string literal) of the name line (in the original too)
+            gaps = {f.markable: rnd.choice(GAPS) for f in chosen}
+            inline = inline_separators(o, lang, chosen, rnd)
+            out.append((lang, with_comments(o, {}, None, inline), with_comments(o, marks, gaps, inline), removed, "mark-separators"))
         chosen = rnd.sample(ind, rnd.randint(1, len(ind)))
-        out.append((lang, orig, with_comments(o, {f.markable: rnd.choice(DECOY[fam]) for f in chosen}), set(), "decoy"))
+        out.append((lang, orig, with_comments(o, {f.markable: rnd.choice(DECOY[fam]) for f in chosen}, {f.markable: rnd.choice(GAPS) for f in chosen}), set(), "decoy"))
         # a REAL marker comment on a line that is not the name's line changes nothing: the other
         # lines of a multi-line header, the first body line, the closing line, a comment-only
         # line directly above or below the name line
@@ -108,7 +154,8 @@ def _correspond_programs(ctx):
     vm = sr.model_scan_many([sr.scan_request(l, v) for (l, _, v, _, _) in vs])
     dis, fails = [], []
     nontrivial = set()
-    dist = {"mark": 0, "decoy": 0, "marker-elsewhere": 0, "marker-line-above": 0, "functions_removed": 0}
+    dist = {"mark": 0, "mark-separators": 0, "decoy": 0, "marker-elsewhere": 0, "marker-line-above": 0, "functions_removed": 0,
+            "separator_between_name_and_marker": sum(1 for (_, _, v, _, k) in vs if k == "mark-separators" and any(c in v for c in scan_streams.SEPARATORS))}
     for (lang, orig, v, removed, kind), r, m in zip(vs, vr, vm):
         inp = {"stream": "program", "language": lang, "original": orig, "variant": v, "removed": sorted(removed) if isinstance(removed, set) else list(removed)}
         if r != m:
@@ -148,7 +195,7 @@ def _correspond_programs(ctx):
             fails.append({"input": {"stream": "text", "text": t}, "observed": i, "required": "marker recognised: %s" % want})
     return {
         "evaluations": len(vs) + len(texts), "distinct_nontrivial": len(nontrivial),
-        "rule": "canonical programs x random subsets of their independent functions marked on the name line, in every comment style / letter case / spacing of the marker (incl. tab, NBSP, EM SPACE after the leader), plus decoy comments (marker word later in the text, doc-comment leaders); comment texts through the marker recogniser; non-trivial = distinct marked variants that remove at least one function",
+        "rule": "canonical programs x random subsets of their independent functions marked on the name line, in every comment style / letter case / spacing of the marker (incl. tab, NBSP, EM SPACE after the leader); each marking also with other white space between code and comment (tab, NBSP, U+000B U+000C U+001C-E U+0085 U+2028 U+2029) and a separator character between the tokens or inside a string literal of the name line; plus decoy comments (marker word later in the text, doc-comment leaders); comment texts through the marker recogniser; non-trivial = distinct marked variants that remove at least one function",
         "samples": [{"language": l, "removed": sorted(rm), "variant_tail": v[-160:]} for (l, _, v, rm, k) in vs[:2]],
         "exhaustive": False, "distribution": dist,
         "disagreements": dis[:50], "oracle_failures": fails[:50],
